@@ -12,13 +12,16 @@
                `age_fix = false`: delta.seconds, i.e. the age modulo one day (the code before that repair)
 
    PART 2  the registry caches that exist only inside `caching_context()` (registry/_caching_context.py):
-     collection record cache (chain definitions, by collection NAME) and collection summary cache (by collection
+     collection record cache (records by collection NAME with the `full` flag: "holds every collection", set by
+     pattern / `...` lookups which then answer from the cache alone) and collection summary cache (by collection
      KEY; SQLite hands the key of a removed collection to the next one registered: new key = 1 + largest key),
      with the invalidation points as coded: a summary write clears the summary cache (/repo 72f8c65);
      setCollectionChain updates the record cache and clears the summary cache (/repo d43ed5b); removeCollection
      discards the record and clears the summary cache (/repo 65fc362).
-     `chain_fix` / `rm_fix` = true is the code as it is; false is the code before d43ed5b / 65fc362 (used only by
-     the refutation witnesses).  An operation the registry refuses answers `err_ans` and changes nothing. *)
+     `chain_fix` / `rm_fix` = true is the code as it is; false is the code before d43ed5b / 65fc362;
+     `rm_order` = true is removal as coded (database delete, THEN discard the cached record), false the reversed
+     order (the record is gone from a `full` cache although the database refused the delete).  The non-shipped
+     settings are used only by the refutation witnesses.  An operation the registry refuses answers `err_ans` and changes nothing. *)
 From Coq Require Import ZArith NArith List Bool.
 Import ListNotations.
 Open Scope Z_scope.
@@ -196,8 +199,11 @@ Open Scope N_scope.
 Record tables := mkTables { ckeys : list (N * N); chains : list (N * list N); summ : list (N * N); data : list (N * N * N) }.
 Definition empty_tables : tables := mkTables [] [] [] [].
 
-(* caches: None outside a caching context; rcache by name, scache by KEY *)
-Record caches := mkCaches { rcache : option (list (N * list N)); scache : option (list (N * list N)) }.
+(* caches: None outside a caching context.  Record cache: name -> record (None = not a chain, Some kids = chain)
+   plus the `full` flag; summary cache by KEY.  A cached record's key is not stored here: a record leaves the cache
+   whenever its collection is removed, so the key the tables give for a cached name is the cached one. *)
+Record rcache_t := mkRC { rc_recs : list (N * option (list N)); rc_full : bool }.
+Record caches := mkCaches { rcache : option rcache_t; scache : option (list (N * list N)) }.
 Definition no_caches : caches := mkCaches None None.
 
 Fixpoint lookup {A} (k : N) (l : list (N * A)) : option A :=
@@ -218,19 +224,40 @@ Fixpoint union_n (a b : list N) : list N :=
   match b with [] => a | x :: r => if memN x a then union_n a r else union_n (a ++ [x]) r end.
 Definition union_all (ls : list (list N)) : list N := fold_left union_n ls [].
 
-(* the chain definition a client sees: record cache first, then the table (and the cache is filled) *)
-Definition children_of (t : tables) (cs : caches) (c : N) : option (list N) * caches :=
+Definition is_chain_b (t : tables) (c : N) : bool := match lookup c (chains t) with Some _ => true | None => false end.
+Definition exists_b (t : tables) (c : N) : bool := match key_of t c with Some _ => true | None => false end.
+
+(* the record the tables give for a name *)
+Definition table_rec (t : tables) (c : N) : option (option (list N)) :=
+  if exists_b t c then Some (lookup c (chains t)) else None.
+Definition table_records (t : tables) : list (N * option (list N)) :=
+  map (fun p => (fst p, lookup (fst p) (chains t))) (ckeys t).
+
+(* _getByName: record cache first, then the table (and the cache is filled) *)
+Definition record_of (t : tables) (cs : caches) (c : N) : option (option (list N)) * caches :=
   match rcache cs with
-  | None => (lookup c (chains t), cs)
+  | None => (table_rec t c, cs)
   | Some rc =>
-      match lookup c rc with
-      | Some kids => (Some kids, cs)
-      | None => match lookup c (chains t) with
-                | Some kids => (Some kids, mkCaches (Some (set_key c kids rc)) (scache cs))
+      match lookup c (rc_recs rc) with
+      | Some r => (Some r, cs)
+      | None => match table_rec t c with
+                | Some r => (Some r, mkCaches (Some (mkRC (set_key c r (rc_recs rc)) (rc_full rc))) (scache cs))
                 | None => (None, cs)
                 end
       end
   end.
+(* _fetch_all (pattern and `...` lookups): a full cache answers alone; otherwise read every record and mark the cache full *)
+Definition fetch_all (t : tables) (cs : caches) : list (N * option (list N)) * caches :=
+  match rcache cs with
+  | None => (table_records t, cs)
+  | Some rc => if rc_full rc then (rc_recs rc, cs)
+               else (table_records t, mkCaches (Some (mkRC (table_records t) true)) (scache cs))
+  end.
+
+(* the chain definition a client sees for a name *)
+Definition children_of (t : tables) (cs : caches) (c : N) : option (list N) * caches :=
+  let '(r, cs1) := record_of t cs c in
+  (match r with Some (Some kids) => Some kids | _ => None end, cs1).
 
 Definition cache_member (t : tables) (acc : list (N * list N)) (m : N) : list (N * list N) :=
   match key_of t m with Some km => set_key km (table_summary t m) acc | None => acc end.
@@ -289,56 +316,71 @@ Inductive rop :=
 | SetChain (c : N) (kids : list N)     (* setCollectionChain (allowed inside a context) *)
 | Put (id ty run : N)                  (* insert a dataset: data row + summary row *)
 | QSummary (c : N)                     (* getCollectionSummary(c).dataset_types *)
-| QData (ty c : N).                    (* query_datasets *)
+| QData (ty c : N)                     (* query_datasets *)
+| QColls (among : list N)              (* queryCollections(<pattern or ...>): `among` = the names the pattern matches *)
+| QDataGlob (ty : N) (among : list N)  (* queryDatasets(ty, collections=<glob>) *)
+| Refused.                             (* any other request the registry refuses (associate into a RUN, ...) *)
 
 Definition rstate := (tables * caches)%type.
-Record fixes := mkFixes { chain_fix : bool; rm_fix : bool }.
-Definition as_coded : fixes := mkFixes true true.
-
-Definition is_chain_b (t : tables) (c : N) : bool := match lookup c (chains t) with Some _ => true | None => false end.
-Definition exists_b (t : tables) (c : N) : bool := match key_of t c with Some _ => true | None => false end.
+Record fixes := mkFixes { chain_fix : bool; rm_fix : bool; rm_order : bool }.
+Definition as_coded : fixes := mkFixes true true true.
 
 (* use_cache = false is the same client with caching contexts switched off (Enter is a no-op) *)
 Definition rstep (fx : fixes) (use_cache : bool) (s : rstate) (o : rop) : rstate * list N :=
   let '(t, cs) := s in
   match o with
   | Enter => if use_cache
-             then ((t, mkCaches (match rcache cs with None => Some [] | x => x end)
+             then ((t, mkCaches (match rcache cs with None => Some (mkRC [] false) | x => x end)
                                 (match scache cs with None => Some [] | x => x end)), [])
              else (s, [])
   | Exit => ((t, no_caches), [])
   | Register c chain =>
-      if exists_b t c then (s, [])
+      if exists_b t c then ((t, snd (record_of t cs c)), [])
       else
         let t' := mkTables ((c, 1 + max_key t) :: ckeys t) (if chain then set_key c [] (chains t) else chains t) (summ t) (data t) in
-        let rc' := match rcache cs with Some rc => Some (if chain then set_key c [] rc else rc) | None => None end in
+        let rc' := match rcache cs with
+                   | Some rc => Some (mkRC (set_key c (if chain then Some [] else None) (rc_recs rc)) (rc_full rc))
+                   | None => None end in
         ((t', mkCaches rc' (scache cs)), [])
   | RemoveColl c =>
-      if negb (exists_b t c) || is_kid t c then (s, err_ans)
+      let cs1 := snd (record_of t cs c) in
+      let discard := fun (x : caches) =>
+        mkCaches (match rcache x with Some rc => Some (mkRC (del_key c (rc_recs rc)) (rc_full rc)) | None => None end) (scache x) in
+      if negb (exists_b t c) then ((t, cs1), err_ans)
+      else if is_kid t c then ((t, if rm_order fx then cs1 else discard cs1), err_ans)
       else
         let t' := mkTables (del_key c (ckeys t)) (del_key c (chains t)) (del_key c (summ t))
                            (filter (fun d => negb (snd d =? c)) (data t)) in
-        let rc' := match rcache cs with Some rc => Some (del_key c rc) | None => None end in
-        let sc' := match scache cs with Some sc => if rm_fix fx then Some [] else Some sc | None => None end in
-        ((t', mkCaches rc' sc'), [])
+        let cs2 := discard cs1 in
+        let sc' := match scache cs2 with Some sc => if rm_fix fx then Some [] else Some sc | None => None end in
+        ((t', mkCaches (rcache cs2) sc'), [])
   | SetChain c kids =>
       if is_chain_b t c && forallb (fun m => exists_b t m && negb (is_chain_b t m)) kids
       then
         let t' := mkTables (ckeys t) (set_key c kids (chains t)) (summ t) (data t) in
-        let rc' := match rcache cs with Some rc => Some (set_key c kids rc) | None => None end in
+        let rc' := match rcache cs with Some rc => Some (mkRC (set_key c (Some kids) (rc_recs rc)) (rc_full rc)) | None => None end in
         let sc' := match scache cs with Some sc => if chain_fix fx then Some [] else Some sc | None => None end in
         ((t', mkCaches rc' sc'), [])
       else (s, err_ans)
   | Put id ty run =>
+      let cs1 := snd (record_of t cs run) in
       if exists_b t run && negb (is_chain_b t run)
       then
         let t' := mkTables (ckeys t) (chains t)
                            (if existsb (fun p => (fst p =? run) && (snd p =? ty)) (summ t) then summ t else summ t ++ [(run, ty)])
                            (data t ++ [(id, ty, run)]) in
-        ((t', mkCaches (rcache cs) (match scache cs with Some _ => Some [] | None => None end)), [])
-      else (s, err_ans)
+        ((t', mkCaches (rcache cs1) (match scache cs1 with Some _ => Some [] | None => None end)), [])
+      else ((t, cs1), err_ans)
   | QSummary c => let '(s', cs') := fetch_summary t cs c in ((t, cs'), s')
   | QData ty c => let '(r, cs') := query_datasets t cs ty c in ((t, cs'), r)
+  | QColls among =>
+      let '(recs, cs1) := fetch_all t cs in
+      ((t, cs1), filter (fun c => match lookup c recs with Some _ => true | None => false end) among)
+  | QDataGlob ty among =>
+      let '(recs, cs1) := fetch_all t cs in
+      let '(r, cs2) := query_members t cs1 ty (filter (fun c => match lookup c recs with Some None => true | _ => false end) among) in
+      ((t, cs2), r)
+  | Refused => (s, err_ans)
   end.
 
 Fixpoint rrun (fx : fixes) (use_cache : bool) (s : rstate) (h : list rop) : rstate * list (list N) :=
